@@ -58,6 +58,13 @@ func (w *World) reach(entries ...*ssa.Function) *Reach {
 				var site ssa.Instruction
 				if e.Site != nil {
 					site = e.Site
+					// CHA resolves the call of a function *value* to every function of that signature, also to
+					// declared functions that are never used as a value (`closeWriter()` with a func() variable gets
+					// an edge to main.main, and with it to everything the program does). Such a function cannot be
+					// what the variable holds.
+					if w.neverAValue(e.Site, e.Callee.Func) {
+						continue
+					}
 				}
 				push(e.Callee.Func, f, site)
 			}
@@ -117,4 +124,57 @@ func (r *Reach) names() []string {
 		out = append(out, safeFname(f))
 	}
 	return out
+}
+
+// addrTaken caches, per world, the declared module functions that occur as a value (operand that is not the callee of a
+// static call) somewhere in the module.
+var addrTaken = map[*World]map[*ssa.Function]bool{}
+
+// neverAValue: site calls a function value (not a method through an interface, not a static callee) and callee is a
+// declared (named, non-method) function of the module whose address is taken nowhere in the module: the call-graph edge
+// is an artefact of signature matching. Methods (method values and expressions go through synthetic wrappers) and
+// functions outside the module are left alone.
+func (w *World) neverAValue(site ssa.CallInstruction, callee *ssa.Function) bool {
+	cc := site.Common()
+	if cc.IsInvoke() || callee == nil {
+		return false
+	}
+	switch cc.Value.(type) {
+	case *ssa.Function, *ssa.MakeClosure, *ssa.Builtin:
+		return false // static
+	}
+	if callee.Parent() != nil || callee.Synthetic != "" || callee.Signature.Recv() != nil || !w.inModule(callee) {
+		return false
+	}
+	taken, ok := addrTaken[w]
+	if !ok {
+		taken = map[*ssa.Function]bool{}
+		scan := func(fn *ssa.Function) {
+			allInstrs(fn, func(i ssa.Instruction) {
+				var calleeOp *ssa.Value
+				if c := callCommon(i); c != nil && !c.IsInvoke() {
+					calleeOp = &c.Value
+				}
+				for _, op := range i.Operands(nil) {
+					if op == nil || *op == nil || op == calleeOp {
+						continue
+					}
+					if g, isFn := (*op).(*ssa.Function); isFn {
+						taken[g] = true
+					}
+				}
+			})
+		}
+		for _, fn := range w.ModFuncs {
+			scan(fn)
+		}
+		// package-level initialisers (var f = g) run in the synthetic init functions, which are not in ModFuncs
+		for _, p := range w.SSA {
+			if init := p.Func("init"); init != nil {
+				scan(init)
+			}
+		}
+		addrTaken[w] = taken
+	}
+	return !taken[callee]
 }
